@@ -41,6 +41,11 @@ func VerifDump(w Wal) string {
 func VerifForceClose(w Wal) {
 	defer func() { _ = recover() }()
 	t := w.(*wal)
+	if t.ctx != nil && t.isClosed() {
+		// already closed by its owner: closing the current segment a second time would hand its index
+		// buffer to the codec's buffer pool twice, and two segments of a later execution would share it
+		return
+	}
 	if t.cancel != nil {
 		t.cancel()
 	}
